@@ -9,22 +9,22 @@ set_option mvcgen.warning false
 namespace ErdosVerif.Model.Sim
 
 /-- `__handle_event` for the popped event `ev` (kept in `ex`), at the clock value `n = ev.time`. -/
-theorem handleEvent_spec (n : Int) (ex : List SEvent) (ev : SEvent) (hev : ev.ev.time = n) (he : ev ∈ ex) :
+theorem handleEvent_rspec (n : Int) (ex : List SEvent) (ev : SEvent) (hev : ev.ev.time = n) (he : ev ∈ ex) :
     ⦃RA n ex⦄ handleEvent ev ⦃post⟨fun _ => RA n ex, fun _ s => ⌜WInv s⌝⟩⦄ := by
-  have h_logE := logE_spec n ex
-  have h_row := row_spec n ex
-  have h_cancel := handleTaskCancel_spec n ex
-  have h_prof := handleProfile_spec n ex
+  have h_logE := logE_rspec n ex
+  have h_row := row_rspec n ex
+  have h_cancel := handleTaskCancel_rspec n ex
+  have h_prof := handleProfile_rspec n ex
   have h_fin : ev.ev.etype = ET.taskFinished → KeepsR n ex (handleTaskFinished ev) :=
-    handleTaskFinished_spec n ex ev he
-  have h_tgr := handleTaskGraphRelease_spec n ex
-  have h_rel := handleTaskRelease_spec n ex
-  have h_upd := handleUpdateWorkload_spec n ex
-  have h_place : KeepsR n ex (handleTaskPlacement ev) := handleTaskPlacement_spec n ex ev hev
-  have h_ss := handleSchedulerStart_spec n ex
-  have h_sf := handleSchedulerFinish_spec n ex
-  have h_util := logUtilization_spec n ex
-  mvcgen [handleEvent, h_logE, h_row, h_cancel, h_prof, h_fin, h_tgr, h_rel, h_upd, h_place, h_ss, h_sf, h_util]
+    handleTaskFinished_rspec n ex ev he
+  have h_tgr := handleTaskGraphRelease_rspec n ex
+  have h_rel := handleTaskRelease_rspec n ex
+  have h_upd := handleUpdateWorkload_rspec n ex
+  have h_place : KeepsR n ex (handleTaskPlacement ev) := handleTaskPlacement_rspec n ex ev hev
+  have h_ss := handleSchedulerStart_rspec n ex
+  have h_sf := handleSchedulerFinish_rspec n ex
+  have h_util := logUtilization_rspec n ex
+  rmvcgen [handleEvent, h_logE, h_row, h_cancel, h_prof, h_fin, h_tgr, h_rel, h_upd, h_place, h_ss, h_sf, h_util]
   all_goals first
     | frame_close
     | rfl
@@ -193,12 +193,12 @@ theorem handle_pre' {s0 s2 s' : SimS} (head e : SEvent) (q' : Array SEvent) (hh 
 
 set_option maxHeartbeats 1600000 in
 /-- **One iteration of the `while True` loop of `simulate()`.** -/
-theorem iter_spec : ⦃fun s => ⌜AP RunOK [] s⌝⦄ iter ⦃post⟨fun _ s => ⌜AP RunOK [] s⌝, fun _ s => ⌜WInv s⌝⟩⦄ := by
-  have h_step := fun n dt T => step_spec n dt T
-  have h_he := fun n ex ev hev he => handleEvent_spec n ex ev hev he
-  mvcgen [iter]
+theorem iter_rspec : ⦃fun s => ⌜AP RunOK [] s⌝⦄ iter ⦃post⟨fun _ s => ⌜AP RunOK [] s⌝, fun _ s => ⌜WInv s⌝⟩⦄ := by
+  have h_step := fun n dt T => step_rspec n dt T
+  have h_he := fun n ex ev hev he => handleEvent_rspec n ex ev hev he
+  rmvcgen [iter]
   split
-  · mvcgen [placedTasks, getTask, getGraph, liftE, popEvent, h_step, h_he]
+  · rmvcgen [placedTasks, getTask, getGraph, liftE, popEvent, h_step, h_he]
     case inv1 =>
       rename_i s0 _ _ _ _ _
       exact post⟨fun p s => ⌜RemsInv s0 p.1.prefix p.2 s⌝, fun _ s => ⌜WInv s⌝⟩
@@ -239,12 +239,12 @@ theorem iter_spec : ⦃fun s => ⌜AP RunOK [] s⌝⦄ iter ⦃post⟨fun _ s =>
 
 
 /-- The constructor: rows, the first utilisation log, the three initial events. -/
-theorem init_spec (n : Int) : KeepsR n [] init := by
-  have h_row := row_spec n []
-  have h_util := logUtilization_spec n []
-  have h_mk := mkEvent_spec n []
-  have h_add := addEvent_spec n []
-  mvcgen [init, h_row, h_util, h_mk, h_add]
+theorem init_rspec (n : Int) : KeepsR n [] init := by
+  have h_row := row_rspec n []
+  have h_util := logUtilization_rspec n []
+  have h_mk := mkEvent_rspec n []
+  have h_add := addEvent_rspec n []
+  rmvcgen [init, h_row, h_util, h_mk, h_add]
   case inv1 => exact loopR n []
   all_goals first
     | frame_close
@@ -260,36 +260,36 @@ def runK : Nat → SimM Bool
     if ← iter then pure true
     else runK k
 
-theorem runK_spec (k : Nat) :
+theorem runK_rspec (k : Nat) :
     ⦃fun s => ⌜AP RunOK [] s⌝⦄ runK k ⦃post⟨fun _ s => ⌜AP RunOK [] s⌝, fun _ s => ⌜WInv s⌝⟩⦄ := by
   induction k with
-  | zero => mvcgen [runK]
+  | zero => rmvcgen [runK]
   | succ k ih =>
-    mvcgen [runK, ih, iter_spec]
+    rmvcgen [runK, ih, iter_rspec]
 
-theorem run_spec (k : Nat) :
+theorem run_rspec (k : Nat) :
     ⦃fun s => ⌜AP RunOK [] s⌝⦄ run k ⦃post⟨fun _ s => ⌜AP RunOK [] s⌝, fun _ s => ⌜WInv s⌝⟩⦄ := by
   induction k with
   | zero =>
-    mvcgen [run]
+    rmvcgen [run]
     rs_hyps h => exact AP.weak h
   | succ k ih =>
-    mvcgen [run, ih, iter_spec]
+    rmvcgen [run, ih, iter_rspec]
 
-theorem whole_spec (fuel : Nat) :
+theorem whole_rspec (fuel : Nat) :
     ⦃fun s => ⌜AP RunOK [] s⌝⦄ (do init; run fuel) ⦃post⟨fun _ s => ⌜AP RunOK [] s⌝, fun _ s => ⌜WInv s⌝⟩⦄ := by
-  have h_init := fun n => init_spec n
-  have h_run := run_spec fuel
-  mvcgen [h_init, h_run]
+  have h_init := fun n => init_rspec n
+  have h_run := run_rspec fuel
+  rmvcgen [h_init, h_run]
   all_goals first
     | (rs_hyps h => exact h.1)
     | (rs_hyps h => exact ⟨h, rfl⟩)
 
-theorem wholeK_spec (k : Nat) :
+theorem wholeK_rspec (k : Nat) :
     ⦃fun s => ⌜AP RunOK [] s⌝⦄ (do init; runK k) ⦃post⟨fun _ s => ⌜AP RunOK [] s⌝, fun _ s => ⌜WInv s⌝⟩⦄ := by
-  have h_init := fun n => init_spec n
-  have h_run := runK_spec k
-  mvcgen [h_init, h_run]
+  have h_init := fun n => init_rspec n
+  have h_run := runK_rspec k
+  rmvcgen [h_init, h_run]
   all_goals first
     | (rs_hyps h => exact h.1)
     | (rs_hyps h => exact ⟨h, rfl⟩)
@@ -315,7 +315,7 @@ theorem triple_run {α} (x : SimM α) (P : SimS → Prop) (Q : α → SimS → P
 tape and every fuel. -/
 theorem simulate_strong (s0 : SimS) (fuel : Nat) (h : AP RunOK [] s0) (hok : (simulate s0 fuel).1 = none) :
     AP RunOK [] (simulate s0 fuel).2 := by
-  have := triple_run _ _ _ _ (whole_spec fuel) s0 h
+  have := triple_run _ _ _ _ (whole_rspec fuel) s0 h
   unfold simulate at hok ⊢
   revert this hok
   cases (StateT.run (ExceptT.run (do init; run fuel)) s0) with
@@ -328,7 +328,7 @@ theorem simulate_strong (s0 : SimS) (fuel : Nat) (h : AP RunOK [] s0) (hok : (si
 the state a simulation is in after the constructor and any number of loop iterations, however
 it ends — normally, out of fuel, or aborted by an exception.** -/
 theorem simulate_weak (s0 : SimS) (fuel : Nat) (h : AP RunOK [] s0) : WInv (simulate s0 fuel).2 := by
-  have := triple_run _ _ _ _ (whole_spec fuel) s0 h
+  have := triple_run _ _ _ _ (whole_rspec fuel) s0 h
   unfold simulate
   revert this
   cases (StateT.run (ExceptT.run (do init; run fuel)) s0) with
@@ -341,6 +341,6 @@ theorem simulate_weak (s0 : SimS) (fuel : Nat) (h : AP RunOK [] s0) : WInv (simu
 completed iterations** (the normally reached states). -/
 theorem loop_head_strong (s0 : SimS) (k : Nat) (h : AP RunOK [] s0) :
     HoldsAfter (fun _ s => AP RunOK [] s) WInv ((ExceptT.run (do init; runK k : SimM Bool)).run s0) :=
-  triple_run (do init; runK k : SimM Bool) _ _ _ (wholeK_spec k) s0 h
+  triple_run (do init; runK k : SimM Bool) _ _ _ (wholeK_rspec k) s0 h
 
 end ErdosVerif.Model.Sim
